@@ -199,7 +199,7 @@ func buildCRL(issuer *Issued, spec CRLSpec) []byte {
 func absCRL(l *x509.RevocationList, issuer *x509.Certificate) map[string]any {
 	var number any
 	if l.Number != nil {
-		number = l.Number.Int64()
+		number = l.Number // exact
 	}
 	critUnknown := false
 	var indicator any
@@ -210,7 +210,7 @@ func absCRL(l *x509.RevocationList, issuer *x509.Certificate) map[string]any {
 			n := new(big.Int)
 			v := cryptobyte.String(e.Value)
 			if v.ReadASN1Integer(n) {
-				indicator = n.Int64()
+				indicator = n // exact
 			} else {
 				indicator = "bad"
 			}
@@ -238,7 +238,7 @@ func absCRL(l *x509.RevocationList, issuer *x509.Certificate) map[string]any {
 				break
 			}
 		}
-		entries = append(entries, map[string]any{"serial": e.SerialNumber.Int64(), "reason": e.ReasonCode,
+		entries = append(entries, map[string]any{"serial": e.SerialNumber, "reason": e.ReasonCode,
 			"revTime": tsec(e.RevocationTime), "invDate": tsec(inv), "badExt": bad})
 	}
 	return map[string]any{"sigOK": l.CheckSignatureFrom(issuer) == nil, "nextUpdate": tsec(l.NextUpdate), "number": number,
